@@ -27,7 +27,7 @@ theorem anchor_eq (pre rest : List Nat) :
   rcases List.eq_nil_or_concat pre with h | ⟨p, k, h⟩
   · simp [h]
   · subst h
-    simp [List.getElem?_append_left]
+    simp
 
 theorem insertAfter_anchor (pre r : List Nat) (y : Nat) (nd : pre.Nodup) :
     insertAfter (pre ++ r) (anchorOf pre) y = some (pre ++ y :: r) := by
